@@ -300,4 +300,203 @@ Proof.
   - subst r0. now apply Hr0.
 Qed.
 
+
+(* ------------------------------------------------------------------ in place: the same objects, keys and storages *)
+Notation shape_t := (shape_t A).
+Notation shape_f := (shape_f A).
+
+Lemma shape_f_cons k (t : tree) (r : forest) : shape_f (FCons k t r) = (k, shape_t t) :: shape_f r.
+Proof. reflexivity. Qed.
+Lemma shape_t_node ob m (f : forest) : shape_t (Node ob m f) = HNode ob (shape_f f).
+Proof. reflexivity. Qed.
+
+Lemma shape_rename : forall (f : forest) ns, shape_f (f_rename A ns f) = shape_f f.
+Proof.
+  apply (forest_mind A (fun t => match t with Node _ _ g => forall ns, shape_f (f_rename A ns g) = shape_f g | _ => True end)
+                       (fun f => forall ns, shape_f (f_rename A ns f) = shape_f f)); try (intros; exact I); try reflexivity.
+  - intros _ _ f IH. exact IH.
+  - intros k t IHt r IHr ns. cbn [f_rename]. rewrite !shape_f_cons, IHr.
+    destruct t as [s v|ob p m|ob m g]; try reflexivity. now rewrite !shape_t_node, IHt.
+Qed.
+
+Lemma shape_fget : forall (f1 f2 : forest) k, shape_f f1 = shape_f f2 ->
+  option_map shape_t (fget A f1 k) = option_map shape_t (fget A f2 k).
+Proof.
+  induction f1 as [|k1 t1 r1 IH]; intros [|k2 t2 r2] k; rewrite ?shape_f_cons; try discriminate; [reflexivity|].
+  intro H. injection H as -> Ht Hr. cbn [fget]. destruct (String.eqb k k2); [cbn [option_map]; now rewrite Ht|now apply IH].
+Qed.
+
+Lemma shape_fset_same : forall (f : forest) k d x, fget A f k = Some d -> shape_t x = shape_t d -> shape_f (fset A f k x) = shape_f f.
+Proof.
+  induction f as [|k' t r IH]; intros k d x; cbn [fget fset]; [discriminate|].
+  destruct (String.eqb k k').
+  - intros H Hx. inv H. rewrite !shape_f_cons. now rewrite Hx.
+  - intros H Hx. rewrite !shape_f_cons. now rewrite (IH k d x H Hx).
+Qed.
+
+Definition root_old (t : tree) : bool :=
+  match t with Leaf _ _ => true | NonT (Old _) _ _ => true | Node (Old _) _ _ => true | _ => false end.
+
+Lemma validate_shape (r : racc) (v : tree) r' v' :
+  validate A r v = Ok (r', v') ->
+  shape_f (r_f A r') = shape_f (r_f A r) /\ (root_old v' = true -> shape_t v' = shape_t v).
+Proof.
+  unfold validate. destruct (meta_of A v) as [vm0|] eqn:Em.
+  2:{ intro H. inv H. auto. }
+  intro H. apply bind_ok in H. destruct H as (v1 & H1 & H).
+  assert (E1 : root_old v1 = true -> shape_t v1 = shape_t v).
+  { destruct (nil_b (m_bs (r_meta A r)) || list_eqb Nat.eqb (firstn (List.length (m_bs (r_meta A r))) (m_bs vm0)) (m_bs (r_meta A r))).
+    - now inv H1.
+    - destruct v; try discriminate. inv H1. discriminate. }
+  set (v2 := match m_dev (r_meta A r) with
+             | Some d => match meta_of A v1 with
+                         | Some vm => if odev_eqb (m_dev vm) (Some d) then v1 else t_to_dev A d v1
+                         | None => v1 end
+             | None => v1 end) in H.
+  assert (E2 : root_old v2 = true -> shape_t v2 = shape_t v).
+  { unfold v2. destruct (m_dev (r_meta A r)); [|exact E1]. destruct (meta_of A v1) eqn:Em1; [|exact E1].
+    destruct (odev_eqb (m_dev m) (Some d)); [exact E1|].
+    destruct v1 as [s x|ob p mm|ob mm g]; cbn [t_to_dev root_old]; try discriminate. }
+  clearbody v2.
+  destruct (nil_b (m_bs (r_meta A r))). { inv H. auto. }
+  destruct (meta_of A v2) as [vm|] eqn:Em2. 2:{ inv H. auto. }
+  destruct (m_names (r_meta A r)) as [pn|].
+  - destruct (list_eqb ostr_eqb (firstn_names (List.length (m_bs (r_meta A r))) vm) pn). { inv H. auto. }
+    destruct (negb (refine_ok (names_list vm) pn)); [discriminate|].
+    destruct (negb (Nat.eqb (List.length pn) (List.length (m_bs vm)))); [discriminate|].
+    inv H. split; [reflexivity|]. destruct v2 as [s x|ob p mm|ob mm g]; cbn [root_old]; discriminate.
+  - destruct (m_names vm).
+    + inv H. cbn [r_f]. split; [apply shape_rename|exact E2].
+    + inv H. auto.
+Qed.
+
+Lemma set_item_shape (r : racc) k (v : tree) r' d :
+  o_inplace o = true -> fget A (r_f A r) k = Some d ->
+  (kind_of A d = KNode -> kind_of A v = KNode -> shape_t v = shape_t d) ->
+  set_item A o r k v = Ok r' -> shape_f (r_f A r') = shape_f (r_f A r).
+Proof.
+  intros Hi Hd Hnode. unfold set_item. rewrite Hi, Hd. intro H. apply bind_ok in H. destruct H as ([r1 v1] & Hv & H).
+  assert (Hval : shape_f (r_f A r1) = shape_f (r_f A r) /\ (root_old v1 = true -> shape_t v1 = shape_t v)).
+  { destruct (o_checked o); [inv Hv; auto|now apply validate_shape]. }
+  destruct Hval as (Ef & Ev).
+  assert (Hd1 : exists d1, fget A (r_f A r1) k = Some d1 /\ shape_t d1 = shape_t d).
+  { pose proof (shape_fget (r_f A r1) (r_f A r) k Ef) as E. rewrite Hd in E.
+    destruct (fget A (r_f A r1) k) as [d1|]; [|discriminate]. cbn [option_map] in E. injection E as E. eauto. }
+  destruct Hd1 as (d1 & Hd1 & Ed1).
+  destruct d as [s x|od dp dm|od dm df].
+  - destruct v1 as [s1 x1| |]; try discriminate. inv H. cbn [r_f]. rewrite <- Ef.
+    apply (shape_fset_same _ k d1); [exact Hd1|]. rewrite Ed1. reflexivity.
+  - destruct v1 as [s1 x1|ov vp vm|]; try discriminate. { destruct s1; discriminate. }
+    destruct (m_lock dm); [discriminate|]. inv H. cbn [r_f]. rewrite <- Ef.
+    apply (shape_fset_same _ k d1); [exact Hd1|]. rewrite Ed1. reflexivity.
+  - destruct v1 as [| |ov vm vf]; try discriminate.
+    destruct od as [a|]; [|discriminate]. destruct ov as [b|]; [|discriminate].
+    destruct (Z.eqb a b) eqn:Eab; [|discriminate]. inv H. cbn [r_f]. rewrite <- Ef.
+    apply (shape_fset_same _ k d1); [exact Hd1|]. rewrite Ed1.
+    specialize (Ev eq_refl). rewrite Ev. apply Hnode; [reflexivity|].
+    (* v is a node, since its validated form is one with an old root *)
+    clear - Hv. destruct (o_checked o); [now inv Hv|].
+    unfold validate in Hv. destruct v as [s x|ob p m|ob m g]; [|exfalso|reflexivity].
+    + cbn [meta_of] in Hv. inv Hv.
+    + cbn [meta_of] in Hv. apply bind_ok in Hv. destruct Hv as (v1 & H1 & Hv).
+      assert (Hk : kind_of A v1 = KNonT).
+      { destruct (nil_b (m_bs (r_meta A r)) || list_eqb Nat.eqb (firstn (List.length (m_bs (r_meta A r))) (m_bs m)) (m_bs (r_meta A r))); now inv H1. }
+      destruct v1 as [|ob1 p1 m1|]; try discriminate.
+      cbn [meta_of t_to_dev] in Hv.
+      destruct (m_dev (r_meta A r)) as [dd|].
+      * destruct (odev_eqb (m_dev m1) (Some dd)); destruct (nil_b (m_bs (r_meta A r))); try (inv Hv; fail);
+          cbn [meta_of] in Hv; destruct (m_names (r_meta A r)); repeat (match type of Hv with (if ?c then _ else _) = _ => destruct c end); try discriminate;
+          try (inv Hv; fail); try (destruct (m_names _); inv Hv).
+      * destruct (nil_b (m_bs (r_meta A r))); try (inv Hv; fail);
+          cbn [meta_of] in Hv; destruct (m_names (r_meta A r)); repeat (match type of Hv with (if ?c then _ else _) = _ => destruct c end); try discriminate;
+          try (inv Hv; fail); try (destruct (m_names _); inv Hv).
+Qed.
+
+
+Definition P_shape (items : forest) : Prop :=
+  forall con prefix sm sf others out names a any res any',
+    o_inplace o = true ->
+    (forall k, In k (fkeys A items) -> fget A sf k = fget A items k) ->
+    nodup_str (fkeys A items) = true -> wf_sub A items = true ->
+    shape_f (r_f A a) = shape_f sf ->
+    apply_items A o fn con prefix sm sf others out names items (Some a) any = Ok (res, any') ->
+    exists a', res = Some a' /\ shape_f (r_f A a') = shape_f sf /\ r_obj A a' = r_obj A a.
+
+Lemma P_shape_all : forall items, P_shape items.
+Proof.
+  apply (forest_mind A (fun t => match t with Node _ _ g => P_shape g | _ => True end) P_shape).
+  - intros; exact I.
+  - intros; exact I.
+  - intros _ _ f IH. exact IH.
+  - intros con prefix sm sf others out names a any res any' Hi _ _ _ Hs H. cbn [apply_items] in H. inv H. eauto.
+  - intros k item IHt rest IHr con prefix sm sf others out names a any res any' Hi Htail Hnd Hwf Hs H.
+    cbn [fkeys nodup_str] in Hnd. apply andb_true_iff in Hnd. destruct Hnd as [Hnk Hnd]. apply negb_true_iff in Hnk.
+    assert (Hnin : ~ In k (fkeys A rest)). { intro Hin. apply mem_str_in in Hin. congruence. }
+    assert (Hsfk : fget A sf k = Some item).
+    { rewrite (Htail k); [|now left]. cbn [fget]. now rewrite String.eqb_refl. }
+    assert (Htail' : forall k', In k' (fkeys A rest) -> fget A sf k' = fget A rest k').
+    { intros k' Hk'. rewrite (Htail k'); [|now right]. cbn [fget].
+      destruct (String.eqb k' k) eqn:E; [apply String.eqb_eq in E; subst; contradiction|reflexivity]. }
+    cbn [wf_sub] in Hwf. apply andb_true_iff in Hwf. destruct Hwf as [Hwfi Hwfr].
+    cbn [apply_items] in H. apply bind_ok in H. destruct H as (t & Htr & Hrun).
+    destruct t as [v|].
+    2:{ now apply (IHr con prefix sm sf others out names a any res any' Hi Htail' Hnd Hwfr Hs). }
+    apply bind_ok in Hrun. destruct Hrun as (acc' & Hset & Hrun).
+    (* the entry of the accumulator under k has the shape of the item *)
+    pose proof (shape_fget (r_f A a) sf k Hs) as Ed. rewrite Hsfk in Ed.
+    destruct (fget A (r_f A a) k) as [d|] eqn:Hd; [|discriminate]. cbn [option_map] in Ed. injection Ed as Ed.
+    assert (Hnode : kind_of A d = KNode -> kind_of A v = KNode -> shape_t v = shape_t d).
+    { intros Kd Kv. rewrite Ed.
+      destruct (negb con && negb (o_is_leaf o (kind_of A item))).
+      - apply bind_ok in Htr. destruct Htr as (others' & _ & Htr).
+        apply bind_ok in Htr. destruct Htr as (out_k & _ & Htr).
+        destruct item as [s x|io dd im|io im g]; [discriminate| |].
+        + exfalso. destruct d; cbn [shape_t] in Ed; try discriminate.
+        + apply bind_ok in Htr. destruct Htr as (init & Hinit & Htr).
+          apply bind_ok in Htr. destruct Htr as ([resn anyn] & Hnest & Htr). cbn [fst snd] in Htr.
+          unfold level_init in Hinit. rewrite Hi in Hinit. inv Hinit.
+          cbn [wf_sub] in Hwfi. apply andb_true_iff in Hwfi. destruct Hwfi as [Hndg Hwfg].
+          destruct (IHt false (prefix ++ [k])%list im g others' out_k None (mkAcc A io im g) false resn anyn Hi) as (an & -> & Sn & On);
+            try assumption; try reflexivity.
+          injection Htr as Htr. unfold level_finish in Htr. cbn [r_obj] in On.
+          assert (v = acc_tree A an).
+          { destruct (o_fe o) as [[|]|].
+            - destruct anyn; now inv Htr.
+            - now inv Htr.
+            - destruct (negb anyn && negb (f_is_empty A g)); now inv Htr. }
+          subst v. unfold acc_tree. rewrite !shape_t_node, On. now rewrite Sn.
+      - apply bind_ok in Htr. destruct Htr as (args & _ & Htr). inv Htr.
+        destruct (fn (keyarg o prefix k) item args); inv H0. discriminate. }
+    pose proof (set_item_shape a k v acc' d Hi Hd Hnode Hset) as Hs'.
+    assert (Ho : r_obj A acc' = r_obj A a) by (apply (set_item_olds a k v acc' Hset)).
+    destruct (IHr con prefix sm sf others out names acc' true res any' Hi Htail' Hnd Hwfr) as (a' & R1 & R2 & R3).
+    { now rewrite Hs'. } { exact Hrun. }
+    exists a'. repeat split; [exact R1|exact R2|]. now rewrite R3.
+Qed.
+
+(* apply_mutates_only, part 2: in place, the call returns self with the same objects, the same keys in the same order
+   and the same leaf storages at every depth (only contents change) *)
+Theorem inplace_shape : forall con propagate so sm sf others out names r,
+  o_inplace o = true -> wf_keys A sf = true ->
+  front A o fn con propagate (Node so sm sf) others out names = Ok (Some r) ->
+  shape_t r = shape_t (Node so sm sf).
+Proof.
+  intros con propagate so sm sf others out names r Hi Hwf H.
+  unfold wf_keys in Hwf. apply andb_true_iff in Hwf. destruct Hwf as [Hnd Hwf].
+  cbn [front] in H. apply bind_ok in H. destruct H as (r0 & Hnest & H).
+  rewrite Hi in H. rewrite andb_false_r in H. cbn [andb] in H. injection H as ->.
+  unfold apply_nest in Hnest. apply bind_ok in Hnest. destruct Hnest as (init & Hinit & Hnest).
+  apply bind_ok in Hnest. destruct Hnest as ([res any'] & Hitems & Hfin). cbn [fst snd] in Hfin.
+  unfold level_init in Hinit. rewrite Hi in Hinit. inv Hinit.
+  destruct (P_shape_all sf con [] sm sf others out names (mkAcc A so sm sf) false res any' Hi) as (a' & -> & S & O);
+    try assumption; try reflexivity.
+  injection Hfin as Hfin. unfold level_finish in Hfin. cbn [r_obj] in O.
+  assert (r = acc_tree A a').
+  { destruct (o_fe o) as [[|]|].
+    - destruct any'; now inv Hfin.
+    - now inv Hfin.
+    - destruct (negb any' && negb (f_is_empty A sf)); now inv Hfin. }
+  subst r. unfold acc_tree. rewrite !shape_t_node, O. now rewrite S.
+Qed.
+
 End FrameP.
